@@ -486,6 +486,17 @@ def generate():
         f'(.{a}, {lean_str(t)})' for a, t in prec))
     L.append('def productions : List (String × String) := ' + lean_list(
         f'({lean_str(n)}, {lean_str(d)})' for n, d in prods))
+    # the same productions, one entry per alternative: (function, left-hand side, right-hand side
+    # symbols); `%prec X` annotations dropped (they only resolve conflicts)
+    gram = []
+    for n, d in prods:
+        lhs, _, rhs = d.partition(':')
+        for alt in rhs.split('|'):
+            syms = alt.split()
+            if '%prec' in syms:
+                syms = syms[:syms.index('%prec')]
+            gram.append(f'({lean_str(n)}, {lean_str(lhs.strip())}, ' + lean_list(map(lean_str, syms)) + ')')
+    L.append('def grammar : List (String × String × List String) := ' + lean_list(gram))
     # lexer facts of the Python runtime / PLY that the tokenizer model relies on
     L.append('/-- code points of the zero digits of the Unicode decimal-digit runs matched by `\\d` (str patterns) -/')
     L.append('def decimalZeros : List Nat := ' + lean_list(str(z) for z in decimal_zeros()))
